@@ -218,6 +218,15 @@ func c13Failures(c *vf.Case, ioc *sonic.IO) {
 			}
 			return err
 		}},
+		{"Dial-udp/connect-fails", func() error {
+			// connect(2) itself fails on a datagram socket: the broadcast address without SO_BROADCAST (EACCES), or no
+			// route to it at all in a namespace that has only the loopback interface (ENETUNREACH)
+			cn, err := sonic.Dial(ioc, "udp", "255.255.255.255:9")
+			if err == nil {
+				cn.Close()
+			}
+			return err
+		}},
 		{"Dial-tcp/bind-to-foreign-address", func() error {
 			cn, err := sonic.Dial(ioc, "tcp", rawpeer.AddrOf(busyTCPPort), sonicopts.BindSocket(foreign))
 			if err == nil {
@@ -498,6 +507,29 @@ func c13Closables() []c13Closable {
 				return nil, -1, err
 			}
 			return t.Close, -2, nil // the timer does not expose its descriptor; found through the census
+		}},
+		{"adapter", func(ioc *sonic.IO) (func() error, int, error) {
+			// an AsyncAdapter over a net.Conn: the adapter's Close closes the connection, which owns the descriptor
+			lfd, port, err := rawpeer.Listen4()
+			if err != nil {
+				return nil, -1, err
+			}
+			defer syscall.Close(lfd)
+			nc, err := net.Dial("tcp", rawpeer.AddrOf(port))
+			if err != nil {
+				return nil, -1, err
+			}
+			if pfd, _, err := rawpeer.Accept(lfd); err == nil {
+				syscall.Close(pfd)
+			}
+			var ad *sonic.AsyncAdapter
+			var aerr error
+			sonic.NewAsyncAdapter(ioc, nc.(*net.TCPConn), nc, func(e error, a *sonic.AsyncAdapter) { ad, aerr = a, e })
+			if aerr != nil || ad == nil {
+				nc.Close()
+				return nil, -1, fmt.Errorf("adapter: %v", aerr)
+			}
+			return ad.Close, ad.RawFd(), nil
 		}},
 		{"file", func(ioc *sonic.IO) (func() error, int, error) {
 			f, err := sonic.Open(ioc, "/proc/self/status", syscall.O_RDONLY, 0)
